@@ -13,6 +13,7 @@ META = {'assumptions': [
     'the quantifier over atom subsets is explored by forks on presence choices: bounded exhaustive enumeration through the explorer '
     '(every subset inside the stated neighbourhood is run through the real pipeline)']}
 
+HELPER = {'ASN': 'CG', 'GLN': 'CD', 'TRP': 'NE1', 'SER': 'OG', 'THR': 'OG1'}   # anchors of non-titratable helper groups
 DEFINING = {'ASP': 'CG', 'GLU': 'CD', 'HIS': 'CG', 'CYS': 'SG', 'TYR': 'OH', 'LYS': 'NZ', 'ARG': 'CZ'}
 
 
@@ -42,9 +43,10 @@ def neighbourhood(res, atoms, depth):
         if a in adj and b in adj:
             adj[a].add(b)
             adj[b].add(a)
-    start = DEFINING.get(res)
+    start = DEFINING.get(res) or HELPER.get(res)
     if start is None or start not in adj:
-        return list(atoms)
+        # no ionizable side chain: backbone and terminal oxygen
+        return [a for a in atoms if a in ('N', 'CA', 'C', 'O', 'OXT', 'CB')]
     seen = {start}
     frontier = {start}
     for _ in range(depth):
@@ -63,6 +65,8 @@ def expected_sites(residues, removed):
         d = DEFINING.get(res)
         if d and d in atoms and (rn, d) not in removed:
             exp.append('%s%4d A' % (res, rn))
+        if 'OXT' in atoms and (rn, 'OXT') not in removed:
+            exp.append('C- %4d A' % rn)
     return exp
 
 
@@ -170,6 +174,13 @@ def obligations(tier):
                                                 % (name, 'the atoms within 2 bonds of the defining atom' if tier == 'quick' else 'all atoms', n, n),
                               claim_doc='no exception; every ionizable site whose defining atom remains is reported exactly once; nothing else is reported',
                               max_paths=200000, shards=4 if n <= 7 else 16, wall_s=170 if tier == 'quick' else 1500, stop_on_violation=False))
+    for name, which in (('cterm_PHE', 2), ('pair_ASP_ARG', 1), ('pair_ASP_ARG', 4), ('pair_GLU_ARG_TYR', 1), ('pair_GLU_ARG_TYR', 4), ('pair_LYS_ASP', 4)):
+        depth = 2 if tier == 'quick' else 99
+        res = parse(name)[which]
+        n = len(neighbourhood(res[1], res[2], depth))
+        obs.append(Obligation('O1-atom-subsets[%s,%s%d]' % (name, res[1], res[0]), mk_subsets(name, which, depth), code=code,
+                              bounds='%s (interacting side chains / C-terminus cut from 1HPX): every subset of %d atoms of %s %d removed' % (name, n, res[1], res[0]),
+                              claim_doc='as O1', max_paths=200000, shards=4 if n <= 7 else 16, wall_s=170 if tier == 'quick' else 1500, stop_on_violation=False))
     if tier == 'thorough':
         for name in ('tri_ASP', 'tri_HIS', 'tri_ARG'):
             obs.append(Obligation('O1-atom-subsets+backbone-of-neighbours[%s]' % name, mk_subsets(name, 1, 1, also_neighbours=True), code=code,
